@@ -79,6 +79,25 @@ pub open spec fn sum_post(old_acc: Seq<Fe>, other: Seq<Fe>, new_acc: Seq<Fe>, r:
            sig='ensures\n sum_post(old(self).0@, agg_share.0@, final(self).0@, r),')
     u.item(V, ['impl<F: FieldElement> Aggregatable for AggregateShare<F>', 'fn accumulate'], ret='r', impl_header='impl AggregateShare', rewrites=AW,
            sig='ensures\n sum_post(old(self).0@, output_share.0@, final(self).0@, r),')
+    # ---- Poplar1FieldVec::{merge, accumulate} (src/vdaf/poplar1.rs): Inner/Leaf must agree, then merge_vector
+    u.raw('''
+// Inner is Vec<Field64>, Leaf is Vec<Field255> in the source: both are instances of the abstract field here
+pub enum Poplar1FieldVec { Inner(Vec<Fe>), Leaf(Vec<Fe>) }
+pub open spec fn fv_seq(v: Poplar1FieldVec) -> Seq<Fe> { match v { Poplar1FieldVec::Inner(a) => a@, Poplar1FieldVec::Leaf(a) => a@ } }
+pub open spec fn fv_same_kind(a: Poplar1FieldVec, b: Poplar1FieldVec) -> bool { (a is Inner) == (b is Inner) }
+pub open spec fn fv_post(old_s: Poplar1FieldVec, other: Poplar1FieldVec, new_s: Poplar1FieldVec, r: Result<(), VdafError>) -> bool {
+    &&& fv_same_kind(old_s, new_s)
+    // a leaf share is never merged into an inner accumulator (or vice versa): error, accumulator unchanged
+    &&& !fv_same_kind(old_s, other) ==> r is Err && fv_seq(new_s) == fv_seq(old_s)
+    &&& fv_same_kind(old_s, other) ==> sum_post(fv_seq(old_s), fv_seq(other), fv_seq(new_s), r)
+}
+''', 'fieldvec')
+    PFV = 'src/vdaf/poplar1.rs'
+    for fn_, other in (('merge', 'agg_share'), ('accumulate', 'output_share')):
+        u.item(PFV, ['impl Aggregatable for Poplar1FieldVec', 'fn ' + fn_], ret='r', impl_header='impl Poplar1FieldVec',
+               rewrites=[(r'Ok\(merge_vector\(left, right\)\?\)', 'match merge_vector(left, right) { Ok(()) => Ok(()), Err(e) => Err(vdaf_error_from(e)) }', 2),   # Ok(x?) == match + From
+                         (r'"\.into\(\)', '".to_string()', '*'), (r'%s: &Self\b' % other, '%s: &Poplar1FieldVec' % other, 1), (r'\bSelf::', 'Poplar1FieldVec::', '*')],
+               sig='ensures\n fv_post(*old(self), *%s, *final(self), r),' % other)
     # ---- Aggregator::aggregate (provided method): fold of accumulate from aggregate_init
     u.raw('''
 pub struct AnyVdaf { _p: u8 }
